@@ -267,13 +267,14 @@ func (l *lexer) acceptWS() {
 		l.backup()
 
 		if strings.HasPrefix(l.input[l.pos:], str_comment_start) {
+			// the end is looked for after the start: the star of "/*/" does not end the comment
+			l.pos += len(str_comment_start)
 			for {
-				var r = l.next()
 				if strings.HasPrefix(l.input[l.pos:], str_comment_end) {
 					l.pos += len(str_comment_end)
 					break
 				}
-				if r == eof {
+				if l.next() == eof {
 					break
 				}
 			}
@@ -310,6 +311,7 @@ func (l *lexer) peek() rune {
 
 func (l *lexer) acceptToken(ttype int) bool {
 	var keyword string
+	word := false
 	switch ttype {
 	case token_unknown:
 		return l.acceptToks(ttype, isIdent, isPrefixedIdent)
@@ -327,9 +329,17 @@ func (l *lexer) acceptToken(ttype int) bool {
 		keyword = ";"
 	default:
 		keyword = l.keyword(ttype)
+		word = true
 	}
 	if !strings.HasPrefix(l.input[l.pos:], keyword) {
 		return false
+	}
+	if word {
+		// a word of the language ends where the word ends: "key-chain:ext" and "leafy" are
+		// not the keywords they start with
+		if r, _ := utf8.DecodeRuneInString(l.input[l.pos+len(keyword):]); isIdent(r) || r == ':' {
+			return false
+		}
 	}
 	l.pos += len(keyword)
 	l.emit(ttype)
@@ -455,6 +465,24 @@ func (l *lexer) acceptNumber(ttype int) bool {
 		}
 		accepted = true
 	}
+}
+
+// wordIsNumber is true when the unquoted argument ahead is a number as a whole, which
+// 2020-01-01 and 1.2.3 are not although they start like one
+func (l *lexer) wordIsNumber() bool {
+	rest := l.input[l.pos:]
+	end := strings.IndexFunc(rest, isStringDelim)
+	if end < 0 {
+		end = len(rest)
+	}
+	for i, r := range rest[:end] {
+		sign := (r == '-' || r == '+') && i == 0
+		decimal := r == '.' && i != 0
+		if !unicode.IsDigit(r) && !sign && !decimal {
+			return false
+		}
+	}
+	return end > 0
 }
 
 func (l *lexer) acceptInteger(ttype int) bool {
@@ -790,7 +818,7 @@ func lexBegin(l *lexer) stateFunc {
 			if l.acceptToken(token_curly_open) {
 				return lexBegin
 			}
-			if l.acceptToken(token_number) {
+			if l.wordIsNumber() && l.acceptToken(token_number) {
 				continue
 			}
 			if l.acceptToken(token_string) {
